@@ -19,7 +19,100 @@ CLAIMS = {
          "TLC proves Expand(t)=Expand(Normalize(t)) on every enumerated tree incl. unary wrappers and emits all spellings grouped by normal form; all spellings must run the spec's jobs on pydra (state level all, API sample) and agree with each other. SplitAlgebra_Req enumerates valid requests and all single-point perturbations; WellFormed=FALSE must give an error with zero executed bodies and no job directory.",
          "Trusted: TLC, spec, JSON bridge. Requests use lists of length 2. Unary wrappers: one per tree.", "6/C05"),
 }
-NOT_YET = "check not built yet (work in progress; the property is intended to be decided by the TLA+ suite, see DESIGN.md section 6)"
+
+def C(level, technique, text, note, ref):
+    return (level, technique, text, note, ref)
+
+CLAIMS.update({
+ "C03": C("model_checking", "TLA+ reference semantics WfState (named axes, natural join) evaluated by TLC per workflow record; every node output of the real workflow compared; recorded findings matched on as-built class + prediction",
+          "Workflow records (all 1-2 node workflows in thorough, seeded 3-4 node samples, diamond family) are evaluated by TLC with the nested-loop reference; each is materialised as source text and run for real; every node's output must equal TLC's symbolic term (pairing, order, loss, duplication).",
+          "Trusted: TLC, WfState.tla, JSON bridge, generated source. Not generated: inner splits over upstream list outputs, nested workflows. Three recorded known-finding classes are matched only on class + as-built observation.", "6/C03"),
+ "C06": C("model_checking", "Identity.tla (relational cache-identity spec): TLC-enumerated submission histories replayed on pydra, events validated by TLC (M4)",
+          "TLC enumerates every 4-submission history over task pairs differing in one of 13 aspects; each history is executed in a fresh cache root and the (key, hit, output) events are validated against Identity!Submit (a hit only after an equal semantic key; outputs equal a fresh execution).",
+          "Trusted: TLC, the aspect labelling of generated source text, textual output comparison; 32 concrete task pairs, debug worker.", "6/C06"),
+ "C07": C("model_checking", "Identity.tla Deterministic/FoundByNext over observations recorded in several interpreter sessions, validated by TLC",
+          "Digest, checksum and cache directory must be a function of the TLA+-built canonical key across sessions with different PYTHONHASHSEED, insertion orders, pickling, worker and cache-root path; a later session must find the result.",
+          "Seeds are sampled (0,1,2,3,random); term_of projection trusted but checked per event.", "6/C07"),
+ "C08": C("model_checking", "Identity_Obs: canonical keys built in TLA+; Deterministic, ContextFree, Injective checked by TLC over all observation pairs",
+          "TLC generates the value grammar (depth 2 + extended atoms, arrays by shape x dtype); every term is hashed alone, reordered, shared, pickled, inside containers, after other values; TLC checks the three relations over all pairs.",
+          "The relational oracle says nothing about values that raise (mixed-type sets).", "6/C08"),
+ "C09": C("model_checking", "FileHash.tla state machine (ideal / as-built / documented-guard key modes) model-checked; TLC behaviours replayed on a real directory with two processes",
+          "M1 on the three key modes; every behaviour of <=3 (quick) / <=4 (+2000 simulated length 5, thorough) file operations replayed with os.utime-controlled mtimes and a private persistent hash cache; directory projection compared after each step, each digest compared with a cold-cache digest.",
+          "mtimes are set explicitly (file-system resolution not exercised). Known finding C09-mtime-key matched only when the digest equals the as-built model's prediction.", "6/C09"),
+ "C10": C("model_checking", "JobProtocol.tla: TLC exhaustive interleavings (M1); TLC behaviours forced on real processes through gated hook points (M3); hook traces validated by TLC (M4)",
+          "3 processes x every interleaving in the model; complete 2-process behaviours (exhaustive) and simulated 3-process behaviours replayed on forked real processes calling task(cache_root=shared); adversarial free-running races; every trace checked action by action incl. logged file-system state; end state: one body execution, identical outputs.",
+          "Trusted: TLC, hook placement (Appendix A), normalisation of the hook log, SoftFileLock mutual exclusion on a local FS.", "6/C10"),
+ "C11": C("model_checking", "JobProtocol.tla (read-only caches, leftovers, rerun) + RerunProp.tla; TLC histories executed for real; traces validated by TLC",
+          "M1 with two read-only caches, leftover directories and rerun flags; every one-process 3-submission history and simulated 2-process histories executed; body counts equal the behaviour's BodyStart steps; read-only caches byte-identical; workflow histories over (rerun, propagate_rerun) compared with RerunProp.",
+          "Leftover 'partial' result = first half of a real result file.", "6/C11"),
+ "C12": C("fault_enumeration", "JobProtocol.tla with Crash at every control point (M1 + liveness under fairness); real processes killed at every hook point; traces validated by TLC; every truncation length of a result file",
+          "One kill per hook point on the execution path (ok / raising body; thorough: rerun over a result, double crash), two resubmissions each must return the correct result in time; M4 validation incl. StaleBreak; load_result on every prefix of a real _result.pklz.",
+          "Assumes filelock>=3.13 stale-lock breaking on the same host (verified on each run). Time-outs are retried once alone with 4x the bound before being reported.", "6/C12"),
+ "C13": C("model_checking", "JobProtocol.tla with body outcomes {ok, raise, collect-failure}: M1 + every 3-submission history executed (python, two-output python, workflow) + M4",
+          "ErrNeverServed, RaiseIsReported, ErrorRecorded in the model; per history: statuses, body counts and error text must match the behaviour; traces validated.",
+          "Same identity made to succeed later through a side file (not part of the cache identity).", "6/C13"),
+ "C14": C("model_checking", "Submitter.tla (expansion loop + worker pool) M1 over DAGs x failing subsets; TLC schedules forced on a real cf Submitter with token-gated bodies; traces validated by TLC",
+          "IndependentJobsRun, DependentsNeverRun, ErrorNamesEveryFailedJob, FailureIsReported, NeverCrashes for every interleaving of worker progress and scans; sampled schedules replayed (bodies released/failed in order, waiting for the loop's scan in between).",
+          "Scan is modelled atomically; launch order within a pass is not controlled.", "6/C14"),
+ "C15": C("model_checking", "Submitter.tla M1 (StartAfterPredsSucceeded, EachJobOnce) + TLC schedules on real cf/debug Submitter + M4",
+          "Chains, fan-in/out, diamonds, split nodes x K x every interleaving in the model; sampled completion orders forced on the cf worker; debug worker ungated; body start/end events validated.",
+          "Node-level gating as in the code (a node starts when all jobs of all predecessors are done).", "6/C15"),
+ "C16": C("model_checking", "Submitter.tla WithinLimit M1 + held bodies on a real cf Submitter, concurrency measured from events by TLC",
+          "K in 1..3 over independent/split/chained jobs, every interleaving; schedules replayed with 8 pool processes so only max_concurrent limits; in-flight count evaluated by the WithinLimit invariant on the trace.",
+          "In flight = launched and body not ended.", "6/C16"),
+ "C17": C("model_checking", "WfState.tla reference (TLC) as single oracle for every worker configuration; Submitter.tla covers schedule independence of the loop",
+          "C03 generator x {debug, cf 1/2/4/8 procs} x max_concurrent x seeded per-job delays; all node outputs equal TLC's terms.",
+          "Completion orders permuted by delays, not forced (forced orders: C15). Records of recorded C03 findings skipped.", "6/C17"),
+ "C18": C("model_checking", "Liveness by TLC: Submitter.tla <>Terminated under fairness; GraphSort.tla terminates for every edge set (cycles included); every edge set built for real under a time bound",
+          "GraphSort enumerates all edge sets over 3 (4) nodes with expected verdict; sampled sets x typed/untyped x worker built through node input assignment and submitted in a child with a wall-clock bound; killed = violation; verdict/outputs as specified.",
+          "40 s bound, retried once alone with 160 s.", "6/C18"),
+ "C19": C("model_checking", "InputIntegrity.tla (aliasing model) enumerated by TLC; every case run for real",
+          "8 input kinds x {debug, cf} x mutates: caller value unchanged or error naming the field; result stored under the original identity; copy-mode files leave the original.",
+          "Thin use of TLA+ (32 cases).", "6/C19"),
+ "C20": C("model_checking", "TypeCoerce.tla: TLC enumerates (type, value) pairs; TypeParser / task field / setattr observations validated by TLC (Conforms, StrSeqConfusion, idempotence)",
+          "All atom and depth-1 types + seeded depth-2 slice (quick) / all 685 types (thorough) x ~105 values; accepted results must conform, not confuse str/sequence, and be stable under re-coercion.",
+          "Grammar depth <=2, File/Directory only; several outcomes observed only (str->set, bytes->ints).", "6/C20"),
+ "C21": C("model_checking", "TypeCoerce_Triples: TLC enumerates (S, T, v) over statically accepted pairs; runtime coercion executed; two-node workflows on a sample",
+          "check_type without superclass_auto_cast over ordered pairs; every judged triple must be accepted at run time.",
+          "Tuple arity and file existence set aside.", "6/C21"),
+ "C22": C("model_checking", "ShellArgv.tla admissible argv sets enumerated by TLC; replay on _command_args and executed argv (argvdump)",
+          "Every 1-field and reduced 2-field definition x positions x values, seeded 2-4 field definitions; argv must be in TLC's admissible set.",
+          "4 open points admitted as sets; definition-time position rejections observed only.", "6/C22"),
+ "C23": C("model_checking", "ShellArgv.tla Intact + TLA+ shlex model as as-built predictor; all strings <=3 over a 10-char alphabet x 10 placements",
+          "Each element must arrive verbatim as its own argument or inside the argument its argstr/separator builds.",
+          "Known retokenisation findings matched only on the exact as-built argv.", "6/C23"),
+ "C24": C("model_checking", "PosixWords.tla POSIX word-splitting machine (TLC-stepped, cross-checked with /bin/sh); (cmdline, argv) pairs validated by TLC",
+          "Pairs recorded from the C23 space and seeded C22 definitions; faithful iff Split(cmdline) is ok and equals argv.",
+          "POSIX-unspecified renderings observed only.", "6/C24"),
+ "C25": C("model_checking", "CmdTemplate.tla: TLC enumerates templates of the documented grammar with expected field table and argv; replay on shell.define and executed runs",
+          "Exhaustive <=1 element of a 212-element menu and <=4 of a 13-element core menu, seeded pair shards, -simulate walks to 6 elements.",
+          "6-token space sampled.", "6/C25"),
+ "C26": C("model_checking", "PathTemplate.tla: TLC generation (M2) + TLC validation of observations (M4)",
+          "Template x file name x second input x keep_extension x output setting x output type; Job.inputs (twice), executed argv and collected outputs validated against PathTemplate!Failures.",
+          "Exact file name recorded, not judged.", "6/C26"),
+ "C27": C("model_checking", "ContainerEnv.tla enumerated by TLC; real Job/Submitter/Docker/Singularity with environments.base.execute replaced by a recorder",
+          "Definition x layout x copy mode x root x runtime; runtime prefix, bind set with modes, workdir and remapped argv compared; native run as relational cross-check.",
+          "No container runtime in the sandbox.", "6/C27"),
+ "C28": C("model_checking", "BatchWorker.tla (adversarial scheduler, prophecy-chosen response script) M1 + liveness; behaviours replayed on real SlurmWorker/SgeWorker against fake scheduler executables",
+          "Every response sequence <=6 and every -J/-o/-e/--no-requeue combination in the model; generated behaviours replayed step-wise (submit/poll/requeue events, verdict, argv).",
+          "Scheduler simulated by fake sbatch/squeue/sacct/scontrol/qsub/qstat/qacct.", "6/C28"),
+ "C29": C("model_checking", "Shipping.tla (Ship = stuttering step on the job projection) validating recorded round trips through a fresh interpreter",
+          "C03 workflow records, python and shell tasks x 4 worker/submitter configurations: projection before/after cloudpickle in another interpreter, outputs of the shipped run, result read back, reference run.",
+          "Thin use of TLA+ (one action).", "6/C29"),
+ "C30": C("model_checking", "WfConstructCache.tla M1 (Transparent, NoLeak) + every TLC history replayed in one interpreter and compared with fresh constructions",
+          "Histories of construct(w, inputs, lazy)/run over two definitions (one value-dependent), three vectors, every lazy set; projection of each returned workflow equals a fresh construction's; no shared node objects between different constructions.",
+          "Usage assumption made explicit by TLC: branch inputs are never lazy.", "6/C30"),
+ "C35": C("fault_enumeration", "JobProtocol.tla with exception injection (M1, intended vs as-built switch); exception raised from every hook point of the real code; traces validated against both; hook counts",
+          "CwdRestored, InfoRemoved, DirHasJobAndResult, TaskHooksOncePerExecution; injected runs accepted by the intended design or exactly by the as-built switch within the recorded class.",
+          "Injection at a point = failure of the step following that point.", "6/C35"),
+ "C36": C("model_checking", "Provenance.tla M1 + FileMessenger messages ordered/attributed through audit hook events, validated by TLC",
+          "Pool of 6 task kinds x {PROV, ALL} (+cf on workflows): one start and one end record per executed job with the job's own id, end flag = job result.",
+          "Message attribution uses the activity id the job held at audit_started/audit_finalized.", "6/C36"),
+ "C39": C("model_checking", "LmodEnv.tla enumerated by TLC; real Lmod.execute with a fake lmod and an environment-dumping executable",
+          "Caller environments x module scripts x quoted values; argv, pass-through and module-set projections compared.",
+          "No Lmod in the sandbox; unset outcome left open.", "6/C39"),
+})
+NOT_YET = "check still being built in this session (the property is intended to be decided by the TLA+ suite, see DESIGN.md section 6)"
 
 def main():
     checks = []
